@@ -341,3 +341,72 @@ pub fn run_x64(pages: &mut Pages, c: &X64Case, far_base: u64) -> Outcome {
     }
     o
 }
+
+
+/// "Windows-style" long entry patch (encoder level, feature `priv_access`): `patch_and_guard(src, jit)`
+/// with the trampoline block beyond +/-2 GiB of the function, which the Linux allocator never
+/// produces.  The block at `jit` is a stub the harness wrote itself.
+#[cfg(feature = "priv_access")]
+pub fn run_x64_far_entry(pages: &mut Pages, a: u64, jit: u64) -> Outcome {
+    let mut o = Outcome::default();
+    let tpage = a & !0xFFF;
+    if !pages.ensure(tpage, 0x2000) {
+        o.skipped = Some(format!("target page {tpage:#x} not available"));
+        return o;
+    }
+    arena::protect(tpage, 0x2000, arena::RW);
+    unsafe {
+        std::ptr::write_bytes(tpage as *mut u8, 0xCC, 0x2000);
+        arena::write(a, &arena::x64_ret_const(TARGET_MARK, 16));
+    }
+    arena::protect(tpage, 0x2000, arena::RX);
+    let overlaps = jit.wrapping_add(16) > tpage && jit < tpage + 0x2000;
+    let jit_mapped = !overlaps && pages.ensure(jit, 16);
+    if jit_mapped {
+        unsafe { arena::write(jit, &arena::x64_ret_const(FAKE_MARK, 6)) };
+    }
+    venv::reset();
+    venv::with(|e| e.log_enabled = false);
+    let pre = unsafe { arena::read(a, 32.min((tpage + 0x2000 - a) as usize)) };
+    let r = catch_unwind(AssertUnwindSafe(|| unsafe { vaccess::amd64_patch_and_guard(a as usize, jit as usize, 12) }));
+    match r {
+        Err(p) => {
+            let msg = p.downcast_ref::<String>().cloned().or_else(|| p.downcast_ref::<&str>().map(|s| s.to_string())).unwrap_or_default();
+            o.refused = Some(msg.clone());
+            if unsafe { arena::read(a, pre.len()) } != pre {
+                o.viols.push(Viol { prop: "C01", key: "x86_64:refused-but-modified".into(), what: format!("long entry patch refused ({msg}) but the entry changed") });
+            }
+        }
+        Ok(g) => {
+            o.installed = true;
+            let mem = |x: u64, n: usize| if x >= tpage && x + n as u64 <= tpage + 0x2000 { Some(unsafe { arena::read(x, n) }) } else { None };
+            let ours = |x: u64| x >= a && x < a + 16;
+            let run = vkit::x64::run_to(a, &mem, &ours, 4, Some(jit));
+            o.trace = run.trace.clone();
+            o.entry_len_long = unsafe { arena::read(a, 1) }[0] != 0xE9;
+            match &run.stop {
+                vkit::x64::Stop::Left { pc } if *pc == jit => {}
+                other => o.viols.push(Viol { prop: "C01", key: "x86_64:long-entry-wrong-destination".into(), what: format!("entry patch for a trampoline at {jit:#x} ({:+#x} from the function): machine ends with {other:?} (path: {})", jit as i128 - a as i128, run.trace.join("; ")) }),
+            }
+            if run.written & !vkit::x64::SCRATCH_OK != 0 || run.rsp_delta != 0 || run.mem_writes != 0 {
+                o.viols.push(Viol { prop: "C13", key: "x86_64:long-entry-clobbers".into(), what: format!("long entry patch writes registers mask {:#x}, rsp delta {}, memory writes {}", run.written, run.rsp_delta, run.mem_writes) });
+            }
+            if jit_mapped && o.viols.is_empty() {
+                o.real_call = true;
+                let got = unsafe { arena::call_u32(a) };
+                if got != FAKE_MARK {
+                    o.viols.push(Viol { prop: "C01", key: "x86_64:real-call-wrong-value".into(), what: format!("calling through the long entry patch returned {got:#x}") });
+                }
+            }
+            drop(g); // restores the entry; its munmap of the harness's block is refused by the environment
+            venv::with(|e| e.errors.clear());
+            if unsafe { arena::read(a, pre.len()) } != pre {
+                o.viols.push(Viol { prop: "C02", key: "x86_64:long-entry-not-restored".into(), what: "the 12-byte entry patch was not restored exactly".into() });
+            }
+        }
+    }
+    if jit_mapped {
+        pages.release(jit, 16);
+    }
+    o
+}
